@@ -617,7 +617,8 @@ class Acelyzer:
                 compiler_log=args.compiler_log,
                 csv_fname=args.output,
                 soc_freq=self.freq_soc,
-                core_freq=self.freq_core)
+                core_freq=self.freq_core,
+                stats_enabled=args.stats)
             process.register_stage(callback=event_pipe.compute_utilization_fingerprints, context=rcu_util_ctx)
 
         ##############################################################
